@@ -263,7 +263,7 @@ func racePass(r *ev.Run) {
 
 func main() {
 	r := ev.New("C12", "model_checking")
-	r.SetBudget(100*time.Second, 40*time.Minute)
+	r.SetBudget(200*time.Second, 40*time.Minute)
 	core.VerifQuiet()
 	if r.ReplayPath != "" {
 		var c Case
